@@ -9,7 +9,7 @@ use crate::json::J;
 use crate::plan::Plan;
 use crate::probe::Dec;
 use crate::rng::{Fnv, Rng};
-use crate::simio::{kind_name, SimWriter, WriteFaultKind, KINDS};
+use crate::simio::{kind_name, kind_of, SimWriter, WriteFaultKind, KINDS};
 use crate::transport::{decode_via, plan_transport, read_fault_of, T_BUFREADER, T_SIM};
 use rosu_map::Beatmap;
 use std::cell::RefCell;
@@ -97,7 +97,7 @@ impl C09 {
             let mut cum = 0u64;
             for (_, b) in &corpus.files {
                 let offs = offsets_for(b.len(), edge, stride);
-                let variants = if b.len() <= 8192 { 10 } else { rv };
+                let variants = if b.len() <= 8192 { 12 } else { rv };
                 cum += offs.len() as u64 * variants;
                 l.read_cum.push(cum);
                 l.read_offsets.push(offs);
@@ -227,11 +227,13 @@ impl Scenario for C09 {
             let base = if f == 0 { 0 } else { l.read_cum[f - 1] };
             let j = i - base;
             let data = &self.corpus.files[f].1;
-            let variants = if data.len() <= 8192 { 10 } else { l.read_variants };
+            let variants = if data.len() <= 8192 { 12 } else { l.read_variants };
             let o = l.read_offsets[f][(j / variants) as usize] as usize;
             let v = j % variants;
             // small files: v = kind*2 + transport; large files: rotate kind and transport with the offset
-            let (kind, tr) = if variants == 10 { ((v / 2) as usize, v % 2) } else { ((o + v as usize) % 5, (o as u64 / 3 + v) % 2) };
+            // small files: the five kinds named by the property x two transports at every offset, plus one of the other
+            // fifteen kinds (rotating with the offset) x two transports
+            let (kind, tr) = if variants == 12 { (if v < 10 { (v / 2) as usize } else { 5 + o % 15 }, v % 2) } else { ((o + v as usize) % KINDS.len(), (o as u64 / 3 + v) % 2) };
             let mut p = Plan::new("C09", "read-sweep", seed, idx);
             p.data = data.clone();
             p.set("file", f as i64);
@@ -254,7 +256,7 @@ impl Scenario for C09 {
                 p.eintr = vec![(o % 5) as u32, (o % 5) as u32 + 1];
                 p.faults.push("R3-interrupted".into());
             }
-            p.faults.push(format!("R4-{}-at-{}", kind_name(KINDS[kind]), o));
+            p.faults.push(format!("R4-{}-at-{}", kind_name(kind_of(kind as i64)), o));
             p.note = self.corpus.files[f].0.clone();
             return p;
         }
@@ -274,9 +276,9 @@ impl Scenario for C09 {
                 let v = j % WRITE_VARIANTS;
                 p.set("w_at", o as i64);
                 if v < 2 {
-                    p.set("w_kind", (o % 5) as i64);
+                    p.set("w_kind", (o % KINDS.len()) as i64);
                     p.set("w_sticky", (o % 2) as i64);
-                    p.faults.push(format!("W3-{}-at-{}", kind_name(KINDS[o % 5]), o));
+                    p.faults.push(format!("W3-{}-at-{}", kind_name(KINDS[o % KINDS.len()]), o));
                 } else {
                     p.set("w_kind", -1); // Ok(0)
                     p.set("w_sticky", 1);
@@ -313,6 +315,21 @@ impl Scenario for C09 {
                         p.set("bufw", 8192);
                         p.faults.push("W5-flush-error".into());
                         p.faults.push("W6-by-value-BufWriter".into());
+                    }
+                    3 => {
+                        p.set("flush_err", 100);
+                        p.faults.push("W5-flush-interrupted".into());
+                    }
+                    4 => {
+                        p.set("flush_err", 100);
+                        p.set("flush_once", 1);
+                        p.set("bufw", 4096);
+                        p.faults.push("W5-flush-interrupted".into());
+                        p.faults.push("W6-by-value-BufWriter".into());
+                    }
+                    5..=8 => {
+                        p.set("flush_err", (5 + (k - 5) * 4 + (f as u64 % 4)) as i64);
+                        p.faults.push("W5-flush-error".into());
                     }
                     2 => {
                         p.set("flush_err", 3);
@@ -386,7 +403,7 @@ impl Scenario for C09 {
             plan_transport(&mut rng, &mut p, true);
             if rng.chance(3, 4) {
                 p.set("fault_at", rng.below(p.data.len() + 1) as i64);
-                p.set("fault_kind", rng.below(5) as i64);
+                p.set("fault_kind", if rng.chance(1, 2) { rng.below(5) } else { rng.below(KINDS.len()) } as i64);
                 p.set("fault_sticky", rng.below(2) as i64);
                 p.faults.push("R4-hard-read-error".into());
             } else {
@@ -400,12 +417,16 @@ impl Scenario for C09 {
             let est = p.data.len() + 200;
             match rng.below(5) {
                 0 => {
-                    p.set("flush_err", rng.below(5) as i64);
+                    // 100 = Interrupted reported by flush itself
+                    p.set("flush_err", if rng.chance(1, 4) { 100 } else { rng.below(KINDS.len()) as i64 });
+                    if rng.chance(1, 3) {
+                        p.set("flush_once", 1);
+                    }
                 }
                 1 => {} // transient only
                 _ => {
                     p.set("w_at", rng.below(est) as i64);
-                    p.set("w_kind", if rng.chance(1, 3) { -1 } else { rng.below(5) as i64 });
+                    p.set("w_kind", if rng.chance(1, 3) { -1 } else { rng.below(KINDS.len()) as i64 });
                     p.set("w_sticky", if p.get("w_kind") < 0 { 1 } else { rng.below(2) as i64 });
                 }
             }
@@ -568,14 +589,15 @@ fn exec_write(plan: &Plan, st: &mut Stats) -> Result<(), Violation> {
     let r = with_clean(&plan.data, |map, clean| -> Result<(), Violation> {
         let mut map = map.clone();
         let fault = if plan.has("w_at") {
-            let what = if plan.get("w_kind") < 0 { WriteFaultKind::Zero } else { WriteFaultKind::Error(KINDS[plan.get("w_kind").rem_euclid(5) as usize]) };
+            let what = if plan.get("w_kind") < 0 { WriteFaultKind::Zero } else { WriteFaultKind::Error(kind_of(plan.get("w_kind"))) };
             Some((plan.get("w_at").max(0) as usize, what, plan.get("w_sticky") != 0))
         } else {
             None
         };
-        let flush_err = if plan.has("flush_err") { Some(KINDS[plan.get("flush_err").rem_euclid(5) as usize]) } else { None };
+        let flush_err = if plan.has("flush_err") { Some(if plan.get("flush_err") == 100 { ErrorKind::Interrupted } else { kind_of(plan.get("flush_err")) }) } else { None };
         let accept = if plan.has("accept") { vec![plan.get("accept").max(1) as u32] } else { vec![] };
-        let (sink, state) = SimWriter::new(accept, plan.eintr.clone(), fault, flush_err, clean.len());
+        let (mut sink, state) = SimWriter::new(accept, plan.eintr.clone(), fault, flush_err, clean.len());
+        sink.flush_once = plan.get("flush_once") != 0;
         let res = if plan.has("bufw") {
             st.inc("fired.W6-by-value-BufWriter");
             map.encode(BufWriter::with_capacity(plan.get("bufw").max(1) as usize, sink))
@@ -602,6 +624,18 @@ fn exec_write(plan: &Plan, st: &mut Stats) -> Result<(), Violation> {
         if !clean.starts_with(&s.data) {
             let at = s.data.iter().zip(clean.iter()).position(|(a, b)| a != b).unwrap_or(clean.len().min(s.data.len()));
             return Err(Violation::new("C09/sink-not-a-prefix", "prefix", format!("bytes accepted by the sink ({}) are not a prefix of the clean encoding ({}); first difference at {at}", s.data.len(), clean.len())));
+        }
+        // a flush answered with Interrupted: the statement does not say whether flush is retried, so either the error is
+        // returned or a later flush succeeded — but Ok while the last flush the sink saw had failed hides unflushed data
+        if s.flush_interrupted > 0 {
+            st.inc("fired.W5-flush-interrupted");
+            return match &res {
+                Ok(()) if s.last_flush_failed => Err(Violation::new("C09/write-error-swallowed", "swallowed", format!("flush answered Interrupted {} time(s), no later flush succeeded, yet encode returned Ok (bufw {:?})", s.flush_interrupted, plan.p.get("bufw")))),
+                Ok(()) if s.data != *clean => Err(Violation::new("C09/transient-changed-output", "short-or-eintr", format!("encode returned Ok but sink holds {} bytes, clean encoding has {}", s.data.len(), clean.len()))),
+                Ok(()) => Ok(()),
+                Err(e) if e.kind() == ErrorKind::Interrupted || s.errors_raised > 0 || s.zero_returned > 0 => Ok(()),
+                Err(e) => Err(Violation::new("C09/spurious-write-error", "spurious", format!("flush answered Interrupted, encode returned Err({e}) of another kind"))),
+            };
         }
         let fault_fired = s.errors_raised > 0 || s.zero_returned > 0;
         match (&res, fault_fired) {
